@@ -64,6 +64,11 @@ inductive TokOk : Token → Prop
   | str (s : List Byte) : strBodyOk s = true → TokOk { kind := .strLit, concrete := 34 :: (s ++ [34]) }
   | comment (s : List Byte) : commentBodyOk s = true →
       TokOk { kind := .lineComment, concrete := 47 :: 47 :: (s ++ [10]) }
+  | shl : TokOk { kind := .dblLeft, concrete := [60, 60] }
+  | shr : TokOk { kind := .dblRight, concrete := [62, 62] }
+  | float (neg : Bool) (ip fp : List Byte) : ip ≠ [] → ip.all isNumeric = true → fp ≠ [] → fp.all isNumeric = true →
+      TokOk { kind := .floatLit, concrete := (if neg then [45] else []) ++ (ip ++ 46 :: fp) }
+  | negInf : TokOk { kind := .negInf, concrete := [45, 105, 110, 102] }
 
 /-- A token and the blanks the canonical text writes in front of it. -/
 structure Lexeme where
@@ -177,6 +182,13 @@ theorem endsSticky_all : ∀ (s : List Byte), s ≠ [] → s.all identCont = tru
     simp only [endsSticky]
     exact endsSticky_all (d :: r) (by simp) (by simp [h.2.1, h.2.2])
 
+theorem endsSticky_suffix : ∀ (l : List Byte) (y : Byte) (ys : List Byte), endsSticky (l ++ y :: ys) = endsSticky (y :: ys)
+  | [], _, _ => rfl
+  | [x], y, ys => by simp [endsSticky]
+  | x :: x' :: l, y, ys => by
+    have := endsSticky_suffix (x' :: l) y ys
+    simpa [endsSticky] using this
+
 theorem endsSticky_ident {s : List Byte} (h : identBytes s = true) : endsSticky s = true := by
   cases s with
   | nil => simp [identBytes] at h
@@ -237,6 +249,54 @@ theorem next_arrow {u : List Byte} (hu : Blanks u) (rest : List Byte) (t : TR) (
   have hn := next_of_ff ht hl ht.errs
   exact ⟨_, hn, ⟨ht.errs, ht.pan, ht.na, ht.io, ht.keep⟩, rfl, rfl⟩
 
+/-! ### the shift operators -/
+
+theorem sbk_lt : singleByteKind 60 = none := by decide
+theorem sbk_gt : singleByteKind 62 = none := by decide
+
+theorem ff_shl (fuel : Nat) (t : TR) (rest : List Byte) :
+    findFirst (fuel + 1) { t with inp := 60 :: 60 :: rest } =
+      ({ kind := .dblLeft, concrete := [60, 60] }, .tok, { t with inp := rest, last := some 60 }) := by
+  have h0 : isBlank 60 = false := by decide
+  have h1 : ((60 : Byte) == b '"') = false := by decide
+  have h2 : isNumeric 60 = false := by decide
+  have h3 : ((60 : Byte) == b '>') = false := by decide
+  have h4 : ((60 : Byte) == b '<') = true := by decide
+  have h5 : (b '<' == (60 : Byte)) = true := by decide
+  simp only [findFirst, readByte, skips_contains, h0, sbk_lt, h1, h2, h3, h4, expectOne, List.find?, h5,
+    Bool.false_eq_true, if_false, if_true, simple]
+  simp
+
+theorem ff_shr (fuel : Nat) (t : TR) (rest : List Byte) :
+    findFirst (fuel + 1) { t with inp := 62 :: 62 :: rest } =
+      ({ kind := .dblRight, concrete := [62, 62] }, .tok, { t with inp := rest, last := some 62 }) := by
+  have h0 : isBlank 62 = false := by decide
+  have h1 : ((62 : Byte) == b '"') = false := by decide
+  have h2 : isNumeric 62 = false := by decide
+  have h3 : ((62 : Byte) == b '>') = true := by decide
+  have h5 : (b '>' == (62 : Byte)) = true := by decide
+  simp only [findFirst, readByte, skips_contains, h0, sbk_gt, h1, h2, h3, expectOne, List.find?, h5,
+    Bool.false_eq_true, if_false, if_true, simple]
+  simp
+
+theorem next_shl {u : List Byte} (hu : Blanks u) (rest : List Byte) (t : TR) (ht : Ok t)
+    (hi : t.inp = u ++ 60 :: 60 :: rest) :
+    ∃ t', next t = (true, t') ∧ Ok t' ∧ t'.inp = rest ∧ t'.nextTok = { kind := .dblLeft, concrete := [60, 60] } := by
+  obtain ⟨l, k, hk, hl⟩ := ff_at hu t (60 :: 60 :: rest) (t.inp.length + 1) (by rw [hi]; simp; omega)
+  rw [← eta_inp t _ hi] at hl
+  replace hl := hl.trans (ff_shl k { t with last := l } rest)
+  have hn := next_of_ff ht hl ht.errs
+  exact ⟨_, hn, ⟨ht.errs, ht.pan, ht.na, ht.io, ht.keep⟩, rfl, rfl⟩
+
+theorem next_shr {u : List Byte} (hu : Blanks u) (rest : List Byte) (t : TR) (ht : Ok t)
+    (hi : t.inp = u ++ 62 :: 62 :: rest) :
+    ∃ t', next t = (true, t') ∧ Ok t' ∧ t'.inp = rest ∧ t'.nextTok = { kind := .dblRight, concrete := [62, 62] } := by
+  obtain ⟨l, k, hk, hl⟩ := ff_at hu t (62 :: 62 :: rest) (t.inp.length + 1) (by rw [hi]; simp; omega)
+  rw [← eta_inp t _ hi] at hl
+  replace hl := hl.trans (ff_shr k { t with last := l } rest)
+  have hn := next_of_ff ht hl ht.errs
+  exact ⟨_, hn, ⟨ht.errs, ht.pan, ht.na, ht.io, ht.keep⟩, rfl, rfl⟩
+
 /-! ### string literals -/
 
 theorem stringLoop_run : ∀ (body : List Byte), strBodyOk body = true → ∀ (fuel : Nat) (t : TR) (conc rest : List Byte),
@@ -293,12 +353,12 @@ theorem stop_not_letter {c : Byte} (h : identCont c = false) (d : Byte) (hd : id
   | false => rfl
   | true => rw [eq_of_beq hcd, hd] at h; cases h
 
-theorem numberLoop_digits (hex : Bool) : ∀ (ds : List Byte),
+theorem numberLoop_digits (hex : Bool) (kind : TK) (dec : Bool) : ∀ (ds : List Byte),
     ds.all (fun d => isNumeric d || (hex && isHexLetter d)) = true →
     ∀ (fuel : Nat) (t : TR) (conc : List Byte) (second inv : Bool) (rest : List Byte), t.ioFail = false →
     stop1 rest = true → (ds ≠ [] ∨ inv = false) → ds.length < fuel →
-    ∃ t', numberLoop fuel { t with inp := ds ++ rest } conc .intLit second hex false inv =
-        ({ kind := .intLit, concrete := conc ++ ds }, t') ∧ Same t t' ∧ t'.inp = rest
+    ∃ t', numberLoop fuel { t with inp := ds ++ rest } conc kind second hex dec inv =
+        ({ kind := kind, concrete := conc ++ ds }, t') ∧ Same t t' ∧ t'.inp = rest
   | [], _, fuel, t, conc, second, inv, rest, hio, hstop, hinv, hf => by
     obtain ⟨f, rfl⟩ : ∃ f, fuel = f + 1 := ⟨fuel - 1, by simp at hf; omega⟩
     have hinv' : inv = false := by rcases hinv with h | h; exact absurd rfl h; exact h
@@ -319,13 +379,13 @@ theorem numberLoop_digits (hex : Bool) : ∀ (ds : List Byte),
         cases h : isHexLetter c with
         | false => rfl
         | true => rw [identCont_hex h] at hs; cases hs.2.1
-      refine ⟨setNext { t with inp := c :: r, last := none } { kind := .intLit, concrete := conc ++ [] }, ?_,
+      refine ⟨setNext { t with inp := c :: r, last := none } { kind := kind, concrete := conc ++ [] }, ?_,
         ⟨rfl, rfl, rfl, rfl, rfl⟩, rfl⟩
       simp [numberLoop, readByte, hx, he, hs.2.2, hnum, hhex, unreadByte]
   | d :: ds, hds, fuel, t, conc, second, inv, rest, hio, hstop, _, hf => by
     obtain ⟨f, rfl⟩ : ∃ f, fuel = f + 1 := ⟨fuel - 1, by simp at hf; omega⟩
     simp only [List.all_cons, Bool.and_eq_true] at hds
-    obtain ⟨t', h1, h2, h3⟩ := numberLoop_digits hex ds hds.2 f { t with last := some d } (conc ++ [d]) false false rest
+    obtain ⟨t', h1, h2, h3⟩ := numberLoop_digits hex kind dec ds hds.2 f { t with last := some d } (conc ++ [d]) false false rest
       hio hstop (Or.inr rfl) (by simp at hf; omega)
     refine ⟨t', ?_, ⟨h2.errs, h2.pan, h2.na, h2.io, h2.keep⟩, h3⟩
     have hd := hds.1
@@ -369,7 +429,7 @@ theorem ff_number {s : List Byte} (hs : numLitOk s = true) {rest : List Byte} (h
     simp only [numLitOk, Bool.or_eq_true, Bool.and_eq_true, beq_iff_eq] at hs
     rcases hs with (⟨hc, hr⟩ | ⟨hc, hr⟩) | ⟨hc, hr⟩
     · -- decimal
-      obtain ⟨t', h1, h2, h3⟩ := numberLoop_digits false r (by simpa using hr) ((r ++ rest).length + 1)
+      obtain ⟨t', h1, h2, h3⟩ := numberLoop_digits false .intLit false r (by simpa using hr) ((r ++ rest).length + 1)
         { t with last := some c } [c] true false rest hio hstop (Or.inr rfl) (by simp; omega)
       refine ⟨t', ?_, ⟨h2.errs, h2.pan, h2.na, h2.io, h2.keep⟩, h3⟩
       have hq : (c == b '"') = false := by
@@ -383,7 +443,7 @@ theorem ff_number {s : List Byte} (hs : numLitOk s = true) {rest : List Byte} (h
       | x :: h :: hs', hr =>
         simp only [Bool.and_eq_true, beq_iff_eq] at hr
         obtain ⟨rfl, hh⟩ := hr
-        obtain ⟨t', h1, h2, h3⟩ := numberLoop_digits true (h :: hs') (by simpa using hh) ((h :: hs' ++ rest).length + 1)
+        obtain ⟨t', h1, h2, h3⟩ := numberLoop_digits true .intLit false (h :: hs') (by simpa using hh) ((h :: hs' ++ rest).length + 1)
           { t with last := some 120 } [48, 120] false true rest hio hstop (Or.inl (by simp)) (by simp; omega)
         refine ⟨t', ?_, ⟨h2.errs, h2.pan, h2.na, h2.io, h2.keep⟩, h3⟩
         have h0 : isBlank 48 = false := by decide
@@ -402,7 +462,7 @@ theorem ff_number {s : List Byte} (hs : numLitOk s = true) {rest : List Byte} (h
       match r, hr with
       | d :: ds, hr =>
         simp only [List.all_cons, Bool.and_eq_true] at hr
-        obtain ⟨t', h1, h2, h3⟩ := numberLoop_digits false ds (by simpa using hr.2) ((ds ++ rest).length + 1)
+        obtain ⟨t', h1, h2, h3⟩ := numberLoop_digits false .intLit false ds (by simpa using hr.2) ((ds ++ rest).length + 1)
           { t with last := some d } [45, d] true false rest hio hstop (Or.inr rfl) (by simp; omega)
         refine ⟨t', ?_, ⟨h2.errs, h2.pan, h2.na, h2.io, h2.keep⟩, h3⟩
         have h0 : isBlank 45 = false := by decide
@@ -415,6 +475,123 @@ theorem ff_number {s : List Byte} (hs : numLitOk s = true) {rest : List Byte} (h
         simp only [findFirst, readByte, List.cons_append, skips_contains, h0, sbk_minus, h1', h2', h3', h4', h5', h6',
           hr.1, Bool.false_eq_true, if_false, if_true, wrap, numberToken]
         rw [h1]; rfl
+
+/-! ### float literals and `-inf` -/
+
+theorem numberLoop_float : ∀ (ip : List Byte), ip.all isNumeric = true → ∀ (fp : List Byte), fp ≠ [] →
+    fp.all isNumeric = true → ∀ (fuel : Nat) (t : TR) (conc : List Byte) (second inv : Bool) (rest : List Byte),
+    t.ioFail = false → stop1 rest = true → ip.length + fp.length + 1 < fuel →
+    ∃ t', numberLoop fuel { t with inp := ip ++ 46 :: (fp ++ rest) } conc .intLit second false false inv =
+        ({ kind := .floatLit, concrete := conc ++ (ip ++ 46 :: fp) }, t') ∧ Same t t' ∧ t'.inp = rest
+  | [], _, fp, hne, hfp, fuel, t, conc, second, inv, rest, hio, hstop, hf => by
+    obtain ⟨f, rfl⟩ : ∃ f, fuel = f + 1 := ⟨fuel - 1, by omega⟩
+    obtain ⟨t', h1, h2, h3⟩ := numberLoop_digits false .floatLit true fp (by simpa using hfp) f { t with last := some 46 }
+      (conc ++ [46]) false true rest hio hstop (Or.inl hne) (by simp at hf; omega)
+    refine ⟨t', ?_, ⟨h2.errs, h2.pan, h2.na, h2.io, h2.keep⟩, h3⟩
+    have hx : ((46 : Byte) == b 'x') = false := by decide
+    have hd : ((46 : Byte) == b '.') = true := by decide
+    simp only [List.nil_append, numberLoop, readByte, hx, Bool.and_false, Bool.false_eq_true, if_false, hd, if_true]
+    simp only [List.append_assoc, List.singleton_append] at h1
+    exact h1
+  | d :: ip, hip, fp, hne, hfp, fuel, t, conc, second, inv, rest, hio, hstop, hf => by
+    obtain ⟨f, rfl⟩ : ∃ f, fuel = f + 1 := ⟨fuel - 1, by omega⟩
+    simp only [List.all_cons, Bool.and_eq_true] at hip
+    obtain ⟨t', h1, h2, h3⟩ := numberLoop_float ip hip.2 fp hne hfp f { t with last := some d } (conc ++ [d]) false false rest
+      hio hstop (by simp at hf; omega)
+    refine ⟨t', ?_, ⟨h2.errs, h2.pan, h2.na, h2.io, h2.keep⟩, h3⟩
+    have hr := numeric_range hip.1
+    have hx : (d == b 'x') = false := by apply beq_false_of_toNat; rw [b_toNat_x]; omega
+    have hdot : (d == b '.') = false := by apply beq_false_of_toNat; rw [b_toNat_dot]; omega
+    simp only [List.cons_append, numberLoop, readByte, hx, hdot, Bool.and_false, Bool.false_eq_true, if_false, hip.1, if_true]
+    simp only [List.append_assoc, List.singleton_append, List.cons_append] at h1
+    exact h1
+
+theorem ff_float (neg : Bool) {ip fp : List Byte} (hip0 : ip ≠ []) (hip : ip.all isNumeric = true) (hfp0 : fp ≠ [])
+    (hfp : fp.all isNumeric = true) {rest : List Byte} (hstop : stop1 rest = true) (fuel : Nat) (t : TR)
+    (hio : t.ioFail = false) :
+    ∃ t', findFirst (fuel + 1) { t with inp := (if neg then [45] else []) ++ (ip ++ 46 :: fp) ++ rest } =
+        ({ kind := .floatLit, concrete := (if neg then [45] else []) ++ (ip ++ 46 :: fp) }, .tok, t') ∧
+      Same t t' ∧ t'.inp = rest := by
+  cases ip with
+  | nil => exact absurd rfl hip0
+  | cons c ip' =>
+    simp only [List.all_cons, Bool.and_eq_true] at hip
+    have hc := hip.1
+    cases neg with
+    | false =>
+      obtain ⟨t', h1, h2, h3⟩ := numberLoop_float ip' hip.2 fp hfp0 hfp ((ip' ++ 46 :: (fp ++ rest)).length + 1)
+        { t with last := some c } [c] true false rest hio hstop (by simp; omega)
+      refine ⟨t', ?_, ⟨h2.errs, h2.pan, h2.na, h2.io, h2.keep⟩, h3⟩
+      have hq : (c == b '"') = false := by
+        apply beq_false_of_toNat; rw [b_toNat_quote]; have := numeric_range hc; omega
+      simp only [Bool.false_eq_true, if_false, List.nil_append, List.cons_append, List.append_assoc, findFirst, readByte,
+        skips_contains, numeric_not_blank hc, sbk_numeric hc, hq, hc, if_true, wrap, numberToken]
+      simp only [List.cons_append, List.append_assoc] at h1
+      rw [h1]
+      simp
+    | true =>
+      obtain ⟨t', h1, h2, h3⟩ := numberLoop_float ip' hip.2 fp hfp0 hfp ((ip' ++ 46 :: (fp ++ rest)).length + 1)
+        { t with last := some c } [45, c] true false rest hio hstop (by simp; omega)
+      refine ⟨t', ?_, ⟨h2.errs, h2.pan, h2.na, h2.io, h2.keep⟩, h3⟩
+      have h0 : isBlank 45 = false := by decide
+      have h1' : ((45 : Byte) == b '"') = false := by decide
+      have h2' : isNumeric 45 = false := by decide
+      have h3' : ((45 : Byte) == b '>') = false := by decide
+      have h4' : ((45 : Byte) == b '<') = false := by decide
+      have h5' : ((45 : Byte) == b '/') = false := by decide
+      have h6' : ((45 : Byte) == b '-') = true := by decide
+      simp only [if_true, List.cons_append, List.nil_append, List.append_assoc, findFirst, readByte, skips_contains, h0,
+        sbk_minus, h1', h2', h3', h4', h5', h6', hc, Bool.false_eq_true, if_false, wrap, numberToken]
+      simp only [List.cons_append, List.append_assoc] at h1
+      rw [h1]
+      simp
+
+theorem next_float (neg : Bool) {ip fp : List Byte} (hip0 : ip ≠ []) (hip : ip.all isNumeric = true) (hfp0 : fp ≠ [])
+    (hfp : fp.all isNumeric = true) {rest : List Byte} (hstop : stop1 rest = true)
+    {u : List Byte} (hu : Blanks u) (t : TR) (ht : Ok t)
+    (hi : t.inp = u ++ ((if neg then [45] else []) ++ (ip ++ 46 :: fp) ++ rest)) :
+    ∃ t', next t = (true, t') ∧ Ok t' ∧ t'.inp = rest ∧
+      t'.nextTok = { kind := .floatLit, concrete := (if neg then [45] else []) ++ (ip ++ 46 :: fp) } := by
+  obtain ⟨l, k, _, hl⟩ := ff_at hu t ((if neg then [45] else []) ++ (ip ++ 46 :: fp) ++ rest) (t.inp.length + 1)
+    (by rw [hi]; simp; omega)
+  rw [← eta_inp t _ hi] at hl
+  obtain ⟨t1, h1, h2, h3⟩ := ff_float neg hip0 hip hfp0 hfp hstop k { t with last := l } ht.io
+  replace hl := hl.trans h1
+  have hn := next_of_ff ht hl (by rw [h2.errs]; exact ht.errs)
+  refine ⟨_, hn, ⟨?_, ?_, ?_, ?_, ?_⟩, h3, rfl⟩
+  · show t1.errs = []; rw [h2.errs]; exact ht.errs
+  · show t1.panicked = false; rw [h2.pan]; exact ht.pan
+  · show t1.nonAscii = false; rw [h2.na]; exact ht.na
+  · show t1.ioFail = false; rw [h2.io]; exact ht.io
+  · show t1.keep = false; rw [h2.keep]; exact ht.keep
+
+theorem ff_negInf (fuel : Nat) (t : TR) (rest : List Byte) :
+    findFirst (fuel + 1) { t with inp := 45 :: 105 :: 110 :: 102 :: rest } =
+      ({ kind := .negInf, concrete := [45, 105, 110, 102] }, .tok, { t with inp := rest, last := some 102 }) := by
+  have h0 : isBlank 45 = false := by decide
+  have h1 : ((45 : Byte) == b '"') = false := by decide
+  have h2 : isNumeric 45 = false := by decide
+  have h3 : ((45 : Byte) == b '>') = false := by decide
+  have h4 : ((45 : Byte) == b '<') = false := by decide
+  have h5 : ((45 : Byte) == b '/') = false := by decide
+  have h6 : ((45 : Byte) == b '-') = true := by decide
+  have h7 : isNumeric 105 = false := by decide
+  have h8 : ((105 : Byte) == b 'i') = true := by decide
+  have h9 : (b 'n' == (110 : Byte)) = true := by decide
+  have h10 : (b 'f' == (102 : Byte)) = true := by decide
+  simp only [findFirst, readByte, skips_contains, h0, sbk_minus, h1, h2, h3, h4, h5, h6, h7, h8, expectOne, List.find?,
+    h9, h10, Bool.false_eq_true, if_false, if_true, simple]
+  simp
+
+theorem next_negInf {u : List Byte} (hu : Blanks u) (rest : List Byte) (t : TR) (ht : Ok t)
+    (hi : t.inp = u ++ 45 :: 105 :: 110 :: 102 :: rest) :
+    ∃ t', next t = (true, t') ∧ Ok t' ∧ t'.inp = rest ∧
+      t'.nextTok = { kind := .negInf, concrete := [45, 105, 110, 102] } := by
+  obtain ⟨l, k, hk, hl⟩ := ff_at hu t (45 :: 105 :: 110 :: 102 :: rest) (t.inp.length + 1) (by rw [hi]; simp; omega)
+  rw [← eta_inp t _ hi] at hl
+  replace hl := hl.trans (ff_negInf k { t with last := l } rest)
+  have hn := next_of_ff ht hl ht.errs
+  exact ⟨_, hn, ⟨ht.errs, ht.pan, ht.na, ht.io, ht.keep⟩, rfl, rfl⟩
 
 theorem next_number {s : List Byte} (hs : numLitOk s = true) {rest : List Byte} (hstop : stop1 rest = true)
     {u : List Byte} (hu : Blanks u) (t : TR) (ht : Ok t) (hi : t.inp = u ++ (s ++ rest)) :
@@ -584,6 +761,30 @@ theorem lex_render_aux (w : Nat → List Byte) (hw : ∀ k, Blanks (w k)) : ∀ 
       intro t ht hi
       obtain ⟨t', h1, h2, h3, h4⟩ := next_comment hs (hw n) rest t ht (by rw [hi]; simp)
       exact ⟨ht, t', h1, h4, ih t' h2 h3⟩
+    | shl =>
+      intro t ht hi
+      obtain ⟨t', h1, h2, h3, h4⟩ := next_shl (hw n) rest t ht hi
+      exact ⟨ht, t', h1, h4, ih t' h2 h3⟩
+    | shr =>
+      intro t ht hi
+      obtain ⟨t', h1, h2, h3, h4⟩ := next_shr (hw n) rest t ht hi
+      exact ⟨ht, t', h1, h4, ih t' h2 h3⟩
+    | float neg ip fp hip0 hip hfp0 hfp =>
+      intro t ht hi
+      have hst : endsSticky ((if neg then [45] else []) ++ (ip ++ 46 :: fp)) = true := by
+        have : endsSticky fp = true := endsSticky_all fp hfp0 (by
+          rw [List.all_eq_true] at hfp ⊢; intro x hx; exact identCont_numeric (hfp x hx))
+        cases fp with
+        | nil => exact absurd rfl hfp0
+        | cons y ys =>
+          have h2 := endsSticky_suffix ((if neg then [45] else []) ++ ip ++ [46]) y ys
+          simpa [List.append_assoc] using h2.trans this
+      obtain ⟨t', h1, h2, h3, h4⟩ := next_float neg hip0 hip hfp0 hfp (hstop hst) (hw n) t ht (by rw [hi])
+      exact ⟨ht, t', h1, h4, ih t' h2 h3⟩
+    | negInf =>
+      intro t ht hi
+      obtain ⟨t', h1, h2, h3, h4⟩ := next_negInf (hw n) rest t ht hi
+      exact ⟨ht, t', h1, h4, ih t' h2 h3⟩
 
 /-- The tokenizer delivers every admissible layout of a well-formed lexeme list as exactly its tokens. -/
 theorem lex_render {l : List Lexeme} (hl : LexsOk l) {w : Nat → List Byte} (hw : LayoutOk w l) :
@@ -631,6 +832,10 @@ theorem tokOk_nonempty {tk : Token} (h : TokOk tk) : tk.concrete ≠ [] := by
     | cons c r => simp
   | str s _ => simp
   | comment s _ => simp
+  | shl => simp
+  | shr => simp
+  | float neg ip fp _ _ _ _ => cases neg <;> simp
+  | negInf => simp
 
 theorem render_len (w : Nat → List Byte) : ∀ (l : List Lexeme) (n : Nat), (∀ lx ∈ l, TokOk lx.tok) →
     l.length ≤ (render w n l).length
